@@ -528,3 +528,67 @@ func TestC03KnownFindings(t *testing.T) {
 		run.Note("child process for KF-C03-cycle ended unexpectedly: " + s[:min(len(s), 300)])
 	}
 }
+
+// TestC03Shapes: long operator chains and deep nestings must still terminate.
+func TestC03Shapes(t *testing.T) {
+	run := h.Begin("C03", "shapes", "bounded-exhaustive: for every binary operator a chain of 40 and of 400 operands over each of {1, 0, null, 's', i, m.a} ('1 && 1 && ...'), right-nested and left-nested parenthesised forms, ?: ladders, prefix-operator towers, nested calls / arrays / member chains of depth 200, long comma and chained-assignment sequences; oracle: (value,nil) or (nil,error) under a 30 s watchdog (an evaluation whose cost doubles per operand does not return); every case non-trivial")
+	defer run.End(t)
+	wd := startWatchdog(t, run, 30*time.Second)
+	defer wd.close()
+	var idx int64
+	try := func(f string) {
+		idx++
+		if !h.Mine(idx) || run.NViolations() >= 3 {
+			return
+		}
+		c := mkEvalCase(f, nil, "")
+		wd.enter("c03", c)
+		msg, cls := checkEvalTotal(c)
+		wd.leave()
+		if cls == "not-parsed" {
+			msg = "HARNESS: shape does not parse: " + f[:min(len(f), 80)]
+		}
+		run.Count(true, cls)
+		if idx%23 == 0 {
+			run.Sample(cls, f[:min(len(f), 120)])
+		}
+		if msg != "" {
+			run.Fail("c03", c, msg)
+		}
+	}
+	ops := append(append([]string{}, ref.BinOps...), ",")
+	for _, n := range []int{40, 400} {
+		for _, op := range ops {
+			for _, x := range []string{"1", "0", "null", "'s'", "i", "m.a"} {
+				parts := make([]string, n)
+				for k := range parts {
+					parts[k] = x
+				}
+				try(strings.Join(parts, " "+op+" "))
+				if n == 40 {
+					try(strings.Repeat("(", n-1) + x + strings.Repeat(" "+op+" "+x+")", n-1))
+					try(strings.Repeat(x+" "+op+" (", n-1) + x + strings.Repeat(")", n-1))
+				}
+			}
+		}
+		try(strings.Repeat("i ? ", n) + "1" + strings.Repeat(" : 2", n))
+		try(strings.Repeat("iz ? 1 : ", n) + "2")
+		for _, pre := range []string{"-", "!", "!!", "~", "+", "typeof "} {
+			try(strings.Repeat(pre, n) + "i")
+		}
+		k := n
+		if k > 200 {
+			k = 200
+		}
+		try(strings.Repeat("fnA(", k) + "i" + strings.Repeat(")", k))
+		try(strings.Repeat("len(toString(", k/2) + "s" + strings.Repeat("))", k/2))
+		try(strings.Repeat("[", k) + "i" + strings.Repeat("]", k))
+		try("m" + strings.Repeat(".a", k))
+		try("m" + strings.Repeat("!.b", 3) + strings.Repeat(".c", k))
+		try(strings.Repeat("$a = ", k) + "1")
+		try(strings.Repeat("$a = $a + 1, ", k) + "$a")
+		try("max(" + strings.Repeat("i, ", k) + "1)")
+		try("fnV(" + strings.Repeat("1, ", k) + "1)")
+	}
+	run.Exhaustive()
+}
